@@ -957,6 +957,45 @@ def m_iter_all_any(eng, st, call):
     return out
 
 
+def _key_bv(eng, st, v):
+    v = deref_all(eng, st, v)
+    if z3.is_bv(v):
+        return v
+    if isinstance(v, Agg) and len(v.fields) == 1 and z3.is_bv(v.fields[0]):
+        return v.fields[0]
+    raise MirError(f'min/max_by_key: key {vrepr(v)} is not an unsigned scalar')
+
+
+def m_iter_min_max_by_key(eng, st, call):
+    """Iterator::min_by_key / max_by_key over a concrete-shape sequence with symbolic unsigned keys: fork on which element wins
+    (min: the FIRST minimum, max: the LAST maximum, as std documents)"""
+    name = method_name(call.fn)
+    clo = call.args[1]
+    out = []
+    for s0, it in _iter_value(eng, st, call.args[0]):
+        items = it.items[it.pos:]
+        if not items:
+            out.append((s0, NONE())); continue
+        states = [(s0, [])]
+        for x in items:
+            nxt = []
+            for s, keys in states:
+                for s2, r in call_closure(eng, s, clo, [Ref(s.temp(x), ())]):
+                    nxt.append((s2, keys + [_key_bv(eng, s2, r)]))
+            states = nxt
+        for s, keys in states:
+            for i, x in enumerate(items):
+                if name == 'min_by_key':
+                    cond = z3.And([z3.ULT(keys[i], keys[j]) for j in range(i)] + [z3.ULE(keys[i], keys[j]) for j in range(i + 1, len(items))])
+                else:
+                    cond = z3.And([z3.UGE(keys[i], keys[j]) for j in range(i)] + [z3.UGT(keys[i], keys[j]) for j in range(i + 1, len(items))])
+                if eng.feasible(s, cond):
+                    s2 = s.clone()
+                    eng.assume(s2, cond)
+                    out.append((s2, SOME(x)))
+    return out
+
+
 def m_iter_find(eng, st, call):
     """find / position / find_map"""
     name = method_name(call.fn)
@@ -1187,6 +1226,9 @@ def collect_into(eng, st, items, ty):
             else:
                 raise MirError('collect into map of non-pairs')
         return m
+    if t in ('Result', 'Option', 'String'):
+        # collecting an iterator of Results / Options / chars: the outcome (Ok with the collection, or the first Err / None) is an environment value
+        return Opaque(st.fresh('collected'), ty)
     raise MirError('collect into ' + str(ty))
 
 
@@ -1223,6 +1265,7 @@ def map_insert(eng, st, m, k, v):
 
 STD_MODELS += [
     (R(r' as (std::iter::)?Iterator>::(filter|map|filter_map)::<'), m_iter_filter),
+    (R(r' as (std::iter::)?Iterator>::(min_by_key|max_by_key)(::<.*>)?$'), m_iter_min_max_by_key),
     (R(r' as (std::iter::)?Iterator>::(enumerate|rev|cloned|copied|count|skip|take|last)(::<.*>)?$'), m_iter_simple),
     (R(r' as (std::iter::)?Iterator>::collect::<'), m_iter_simple),
 ]
@@ -1265,11 +1308,26 @@ def m_copy_from_slice(eng, st, call):
         return None
     src = deref_all(eng, st, call.args[1])
     dst = eng.read(st, a.loc, a.path)
-    if isinstance(dst, SeqV) and isinstance(src, SeqV) and len(dst.items) != len(src.items):
-        raise MirError('copy_from_slice: length mismatch (panic)')
     from .api import uid_of
-    eng.write(st, a.loc, a.path, copy_val(src) if isinstance(src, (SeqV, Agg)) else Opaque('copy_of(' + uid_of(eng, st, src) + ')', '[T]'))
-    return [(st, UNIT())]
+    out = []
+    try:
+        ld = len_of(eng, st, dst) if not (isinstance(dst, Agg) and dst.kind == 'array') else z3.BitVecVal(len(dst.fields), 64)
+        ls = len_of(eng, st, src)
+    except MirError:
+        ld = ls = None
+    newv = lambda: copy_val(src) if isinstance(src, (SeqV, Agg)) else Opaque('copy_of(' + uid_of(eng, st, src) + ')', '[T]')
+    if ld is None or ls is None:
+        eng.write(st, a.loc, a.path, newv())
+        return [(st, UNIT())]
+    # std panics when the two slices differ in length
+    from .engine import Panic
+    for s2, same in bool_cases(eng, st, ld == ls):
+        if same:
+            eng.write(s2, a.loc, a.path, newv())
+            out.append((s2, UNIT()))
+        else:
+            out.append((s2, Panic('copy_from_slice: source slice length does not match destination slice length')))
+    return out
 
 
 def m_seq(eng, st, call):
@@ -1356,6 +1414,8 @@ def m_mapops(eng, st, call):
                 v.entries.append([call.args[1], UNIT()])
             return [(st, z3.BoolVal(i is None))]
         old = map_insert(eng, st, v, call.args[1], call.args[2])
+        if old is None and getattr(v, 'cap', None) is not None and len(v.entries) > v.cap:
+            v.entries.pop(0)          # LRU eviction (recency approximated by insertion order; only used by scenarios that never touch the older entries)
         return [(st, NONE() if old is None else SOME(old))]
     if name in ('remove', 'pop'):
         i = map_find(eng, st, v, key)
@@ -1438,6 +1498,7 @@ def type_args_of_entry(fn):
 STD_MODELS += [
     (R(r'^(std::vec::|alloc::vec::)?Vec::<.*>::new$|VecDeque::<.*>::new$|HashMap::<.*>::new$|HashSet::<.*>::new$|BTreeMap::<.*>::new$|BTreeSet::<.*>::new$|^String::new$|std::string::String::new$'), m_new_container),
     (R(r' as (std::ops::)?Index(Mut)?<usize>>::index(_mut)?$'), m_seq_index),
+    (R(r'^(std|core)::mem::drop(::<.*>)?$'), lambda eng, st, call: [(st, UNIT())]),
     (R(r'copy_from_slice$'), m_copy_from_slice),
     (R(r'(Vec|VecDeque)::<.*>::(push|push_back|push_front|pop|pop_front|pop_back|len|is_empty|iter|iter_mut|split_off|clear|first|last|front|back|get|to_vec|as_slice|contains|truncate|remove)$'), m_seq),
     (R(r'slice::<impl \[.*\]>::(len|is_empty|iter|iter_mut|first|last|get|to_vec|contains)$'), m_seq),
